@@ -38,6 +38,10 @@ type Clause struct {
 	Text  string
 	Expr  ast.Expr
 	Src   string
+	// Local: an "ensures-local" clause is proved for the body but not handed to
+	// callers (a strong functional postcondition nobody relies on yet would only
+	// make every caller's queries heavier)
+	Local bool
 }
 
 type LoopSpec struct {
@@ -423,12 +427,13 @@ func (cs *ContractSet) LoadFile(path, defaultPkg string) {
 					continue
 				}
 				cur.Requires = append(cur.Requires, c)
-			case "ensures":
+			case "ensures", "ensures-local":
 				c, err := parseClause(rest, src)
 				if err != nil {
 					fail(err)
 					continue
 				}
+				c.Local = word == "ensures-local"
 				cur.Ensures = append(cur.Ensures, c)
 			case "guard-call", "guard-store":
 				// guard-call [label:] "<callee name regexp>" <expr>
